@@ -72,7 +72,11 @@ pub fn check(rep: &Reporter) {
 			let seq = seq_decode(i / CONFIGS.len(), n_main, 2);
 			let text = format!("[{}]", seq.iter().map(|k| ENTRIES[*k]).collect::<Vec<_>>().join(","));
 			let _e = rt.enter();
-			super::c01::tcp_case(rep, local, rt, "tcp-batch", text.as_bytes(), CONFIGS[ci]);
+			super::c01::tcp_case(rep, local, rt, "tcp-batch", text.as_bytes(), CONFIGS[ci], false);
+			if ci == 0 {
+				// batches go through RpcServiceT::batch of every middleware: once more behind the RPC logger
+				super::c01::tcp_case(rep, local, rt, "tcp-batch", text.as_bytes(), CONFIGS[ci], true);
+			}
 		});
 	}
 	// arrays containing the subscribe entry (WS: the subscription must be answered inside the array only)
